@@ -37,6 +37,8 @@ def main():
                 os.remove(os.path.join(wt, pkgdir, "zz_seed_" + f))
             pk = "./internal/socketace/ ./internal/streams/... ./internal/util/... ./internal/flags/"
             rct, outt = sh(f"go test -vet=off -count=1 -timeout 20m {pk}", cwd=wt)
+            if rct != 0:  # internal/streams/dns has a baseline-flaky network test: one retry
+                rct, outt = sh(f"go test -vet=off -count=1 -timeout 20m {pk}", cwd=wt)
             meta["ran"].append({"cmd": f"existing tests (patched): go test {pk}  [internal/it not run here: fixed ports were in use by parallel jobs; the seeding agent ran it]", "passed": rct == 0, "tail": "" if rct == 0 else outt[-800:]})
             meta["confirmed"] = bool(rc0 == 0 and rcb == 0 and rc1 != 0 and rct == 0)
     finally:
